@@ -37,6 +37,11 @@ def obligations(tier):
     obs += _sync_section("C12", ["0,1,3"]) + [_two_maps("C12")]
     obs.append(Ob("C12.time_add", "CH", "harness.h_extra", "time_add_unit", 300, funcs=("chartparse.time.add",),
                   bounds="6 representative stamps (incl. several days) x 8 offsets x float/timedelta form: exact timedelta addition"))
+    obs.append(Ob("C12.witness_replay", "PY", "vf.fk_witness", "check", 300,
+                  funcs=("chartparse.sync.SyncTrack.from_chart_lines", "chartparse.sync.BPMEvents.timestamp_at_tick_no_optimize_return", "chartparse.tick.seconds_from_ticks_at_bpm (real arithmetic)", "chartparse.time.add"),
+                  bounds="z3 generates 70 integer witnesses in 14 rare regions (sub-microsecond ticks before a tempo change, long runs of them, a tempo change more than a day into the chart, "
+                         "exact half-microsecond offsets, tempo ratios of 10^9); each is replayed through the real parser and query (native floats) and judged against exact rationals: "
+                         "|time-exact| <= 0.501 us per segment, tick 0 = 0, non-decreasing, strictly increasing where every tick lasts >= 2 us, stored tempo times = queried times"))
     return obs
 
 
